@@ -34,7 +34,7 @@ Inner == U(MaxDepth - 1)
 
 VARIABLE v
 Init == v \in Inner
-Next == v \in Inner /\ v' \in Expand(v, Inner, Width, RootSeqWidth, TopKinds, TopDCs)
+Next == Depth(v) < MaxDepth /\ v' \in Expand(v, Inner, Width, RootSeqWidth, TopKinds, TopDCs)
 Spec == Init /\ [][Next]_v
 
 Perms == {f \in [LeafIds -> LeafIds] : \A a, b \in LeafIds : a # b => f[a] # f[b]}
@@ -85,6 +85,8 @@ AllLaws ==
 \* model-level controls (each MUST be violated)
 AsBuiltShapeStrict == \A f \in InjFns : Shape(MapNestedAsBuilt(f, v)) = Shape(v)
 ShapeLawAnyF == \A f \in AnyFns : Shape(MapNested(f, v)) = Shape(v)
+
+WellFormedOnly == WellFormed(v)
 
 Emit == EmitOn =>
   PrintT("TREE " \o ToJson([v |-> v, l |-> IterLeaves(v), m |-> MapNested(EmitF, v),
